@@ -21,5 +21,12 @@ CHECKS = {
         "text": "Every repository source/guide snippet, every single-character insert/delete/replace (hostile alphabet incl. ) } CR NUL non-ASCII) at every position of 30 short programs covering the statement grammar, and random multi-edit mutants/concatenations are parsed and built by the real library. Whenever no diagnostic is reported the concatenated Display of the tokens must equal the text (CRLF->LF, keyword case) and a marker statement appended at the end must have left its bytes in the image - two independent observations of 'nothing silently ignored'.",
         "note": "Judges only texts that parse and build without diagnostics (those are the executions that could ignore text silently). Keyword case-insensitivity limited to mnemonics/directives/as/from/else/encodings/x/y.",
     },
+    "C06": {
+        "engine": "probe",
+        "category": "exploration",
+        "technique": "runtime monitoring: per-stage panic/abort capture in-process and at the CLI boundary, diagnostic-location checks, and a per-pass state-digest observer (hook H1) that decides non-termination without a timer",
+        "text": "Hostile inputs (directive templates x extreme integer spellings, hostile names, truncated/recursive/huge specials, import graphs with cycles, repository sources, seeded mutants, random characters, generators for oscillating branches / zp-abs flips / mutually dependent segments; real-file CLI slice with invalid UTF-8, directories and symlinks in place of files, broken mos.toml) are run through parse, Display, build-mode and analysis-mode codegen, format, listing, bank merge and symbol export. Any panic, abort (stack overflow, allocation failure), located diagnostic outside the project, or a pass loop still running at 1500 passes with a periodic state sequence is a violation.",
+        "note": "Watchdog timeouts (e.g. `.loop 2^63 { nop }`, which iterates in pass 0 without a segment) are inconclusive, never violations, and are listed in the evidence as hang suspects. Release semantics. Unreadable files emulated (sandbox runs as root).",
+    },
 }
 NOT_APPLICABLE = {}
